@@ -69,6 +69,7 @@ static std::atomic<int> g_evon{0};
 static thread_local int tl_api = 0;               // != 0: this thread is inside an API call issued by the harness
 static thread_local uint64_t tl_cs = 0;           // stamp of the first acquisition of the pool mutex inside that call
 static thread_local int tl_widx = 0;              // 0 = not a tracked worker; else index into g_w (== thread number)
+static thread_local int tl_foreign = 0;           // the harness is driving ANOTHER pool / WorkThread (forge wt|pool): nothing of it is recorded
 static inline int me_idx() { return tl_widx ? tl_widx : (pthread_equal(pthread_self(), g_main_thr) ? 0 : -1); }
 static inline void ev(int kind, int thr, const void *p, int arg = 0) {
     size_t i = g_evn.fetch_add(1, std::memory_order_relaxed);
@@ -109,10 +110,19 @@ extern "C" int pthread_mutex_lock(pthread_mutex_t *m) {
 // on WORKER threads: a rare pause after an unlock (the last unlock of a voluntarily exiting worker is
 // the one after it removed itself from the cabinet: the thread is still alive for a while).
 static std::atomic<int> g_in_cleanup{0};
+// `holdpick <us>`: the NEXT unlock of the pool mutex by a worker thread is followed by a pause of <us> microseconds (one shot):
+// in an idle pool that unlock ends the critical section in which the worker popped the next task and entered it into the
+// running set — the loop thread's next ops (cancel / getTaskStatus of that very task) land between the pop and the body
+static std::atomic<unsigned> g_hold_us{0};
+static std::atomic<int> g_holding{0};             // 1 while a worker sits in that pause (the next loop-thread op waits for it to begin)
 extern "C" int pthread_mutex_unlock(pthread_mutex_t *m) {
     static mlock_t real = (mlock_t)dlsym(RTLD_NEXT, "pthread_mutex_unlock");
     if (g_evon.load(std::memory_order_relaxed) && !tl_api && tl_widx > 0) ev(EV_U, tl_widx, m);
     int r = real(m);
+    if (tl_widx > 0 && !tl_api && g_hold_us.load(std::memory_order_relaxed) != 0 && m == g_cap_mutex.load()) {
+        unsigned us = g_hold_us.exchange(0);
+        if (us) { g_holding = 1; usleep(us); g_holding = 0; }
+    }
     if (g_in_cleanup.load(std::memory_order_relaxed) && m == g_cap_mutex.load() && g_cq1.load() == 0
         && pthread_equal(pthread_self(), g_main_thr))
         g_cq1 = seq();
@@ -146,12 +156,12 @@ extern "C" int pthread_cond_wait(pthread_cond_t *c, pthread_mutex_t *m) {
 typedef int (*csig_t)(pthread_cond_t *);
 extern "C" int pthread_cond_signal(pthread_cond_t *c) {
     static csig_t real = (csig_t)dlsym(RTLD_NEXT, "pthread_cond_signal");
-    if (g_evon.load(std::memory_order_relaxed)) { int me = me_idx(); if (me >= 0) ev(EV_NO, me, c); }
+    if (g_evon.load(std::memory_order_relaxed) && !tl_foreign) { int me = me_idx(); if (me >= 0) ev(EV_NO, me, c); }
     return real(c);
 }
 extern "C" int pthread_cond_broadcast(pthread_cond_t *c) {
     static csig_t real = (csig_t)dlsym(RTLD_NEXT, "pthread_cond_broadcast");
-    if (g_evon.load(std::memory_order_relaxed)) { int me = me_idx(); if (me >= 0) ev(EV_NA, me, c); }
+    if (g_evon.load(std::memory_order_relaxed) && !tl_foreign) { int me = me_idx(); if (me >= 0) ev(EV_NA, me, c); }
     return real(c);
 }
 
@@ -176,7 +186,7 @@ static void *tramp(void *p) {
 typedef int (*pcreate_t)(pthread_t *, const pthread_attr_t *, void *(*)(void *), void *);
 extern "C" int pthread_create(pthread_t *th, const pthread_attr_t *attr, void *(*fn)(void *), void *arg) {
     static pcreate_t real = (pcreate_t)dlsym(RTLD_NEXT, "pthread_create");
-    if (!g_track.load()) return real(th, attr, fn, arg);   // workers may be created by a nested execute() too
+    if (!g_track.load() || tl_foreign) return real(th, attr, fn, arg);   // workers may be created by a nested execute() too
     ++tl_made;
     int idx = g_created.fetch_add(1) + 1;
     if (idx >= kMaxW) return real(th, attr, tramp, new Tramp{fn, arg, 0, g_epoch.load()});   // counted, not recorded
@@ -241,6 +251,7 @@ static int thr_index() {                         // loop thread = 0, workers = c
 }
 
 struct ApiScope { ApiScope() { tl_api = 1; tl_cs = 0; } ~ApiScope() { tl_api = 0; } };
+static bool g_inited = false, g_cleaned = false;
 // ---------------------------------------------------------------- re-entrant API use (bodies / callbacks call the pool)
 struct NEv { char kind; size_t k; int r; int thr; size_t parent; int prio; bool cb; uint64_t qb, qa, cs; };
 static std::mutex g_nev_mu;
@@ -255,8 +266,12 @@ static event::Loop *g_loop = nullptr;
 // every public execute() overload is used: the variant is a function of the task number
 //   0: rvalue functions   1: const-reference functions   2 / 3: the same, WorkThread with the loop passed explicitly
 static bool g_wt_noloop = false;                 // WorkThread constructed without a default loop
+static std::atomic<uint64_t> g_exec_calls{0};    // execute() calls on the object under test in this case (all lifecycles): bounds its token ids
+static std::vector<cabinet::Token> g_prev_tok;   // tokens of the loop-submitted tasks of the PREVIOUS lifecycle (stale now)
+static int g_w_base = 0;                         // worker threads created in earlier lifecycles of this case
 static cabinet::Token do_execute(size_t k, bool cb, int prio) {
     int v = (int)(k % 4);
+    g_exec_calls.fetch_add(1, std::memory_order_relaxed);
     std::function<void()> body = [k] { task_body(k); };
     std::function<void()> cbf = [k] { task_cb(k); };
     ApiScope as;
@@ -289,6 +304,45 @@ static void task_cb(size_t k) {
     if (!t.cscript.empty()) run_script(k, t.cscript);
 }
 
+// ---- `R<n>` in a callback script: a chain of n tasks whose body AND completion callback are one and the same
+// std::function object (const-reference overload); each link is submitted from inside the completion callback of the
+// previous one, i.e. while that very object is being invoked by the loop and the worker is releasing the finished item
+struct SelfChain { std::function<void()> f; std::atomic<size_t> cur{0}; std::atomic<int> left{0}; size_t parent = 0; };
+static std::vector<std::shared_ptr<SelfChain>> g_chains;       // kept alive until the case ends
+static std::mutex g_chain_mu;
+static void chain_submit(const std::shared_ptr<SelfChain> &c) {
+    size_t j = g_nn.fetch_add(1);
+    size_t k = kNestBase + j;
+    if (k >= kMaxTasks) return;
+    TaskRec &t = g_tasks[k];
+    t.prio = 0; t.cb = true; t.dur_us = 0;
+    t.ready.store(true, std::memory_order_release);
+    c->cur = k;
+    int thr = thr_index();
+    uint64_t qb = seq();
+    cabinet::Token tok; uint64_t cs;
+    { ApiScope as; g_exec_calls.fetch_add(1, std::memory_order_relaxed);
+      tok = g_tp ? g_tp->execute(c->f, c->f, 0) : (g_wt ? g_wt->execute(c->f, c->f, g_loop) : cabinet::Token()); cs = tl_cs; }
+    uint64_t qa = seq();
+    if (tok.isNull()) nev(NEv{'z', k, 0, thr, c->parent, 0, true, qb, qa, cs});
+    else { t.token = tok; nev(NEv{'x', k, 0, thr, c->parent, 0, true, qb, qa, cs}); }
+}
+static void chain_start(size_t parent, int n) {
+    auto c = std::make_shared<SelfChain>();
+    c->parent = parent; c->left = n - 1;
+    std::weak_ptr<SelfChain> wc = c;
+    c->f = [wc] {
+        auto c = wc.lock(); if (!c) return;
+        size_t k = c->cur.load();
+        if (pthread_equal(pthread_self(), g_main_thr)) {            // completion-callback role
+            task_cb(k);
+            if (c->left.fetch_sub(1) > 0 && !g_cleaned) chain_submit(c);
+        } else task_body(k);                                         // body role (worker thread)
+    };
+    { std::lock_guard<std::mutex> lg(g_chain_mu); g_chains.push_back(c); }
+    chain_submit(c);
+}
+
 // ---------------------------------------------------------------- watchdog
 static std::atomic<int64_t> g_deadline_ms{0};
 static int64_t now_ms() {
@@ -308,12 +362,12 @@ static void watchdog() {
 }
 
 // ---------------------------------------------------------------- the case state
-static bool g_inited = false, g_cleaned = false;
 
 static void run_script(size_t self, const std::vector<TaskRec::Act> &sc) {
     int thr = thr_index();
     long last = -1;                                  // most recent nested child of this script
     for (const auto &a : sc) {
+        if (a.kind == 'R') { chain_start(self, (int)a.k); continue; }
         if (a.kind == 'x') {
             size_t j = g_nn.fetch_add(1);
             size_t k = kNestBase + j;
@@ -395,6 +449,8 @@ static void reset_case() {
     g_track = 0; g_epoch.fetch_add(1); g_created = 0; g_ended = 0;
     g_bulk_ran = 0; g_bulk_n = 0;
     g_evon = 0; g_evn = 0; g_fail_create = 0; g_cleanup_cs = 0; g_wt_noloop = false;
+    g_exec_calls = 0; g_prev_tok.clear(); g_w_base = 0; g_hold_us = 0; g_holding = 0;
+    { std::lock_guard<std::mutex> lg(g_chain_mu); g_chains.clear(); }
     {
         std::lock_guard<std::mutex> lg(g_thr_mu);
         g_thr_ids.clear();
@@ -427,13 +483,14 @@ static bool quiescent() {
 
 // "x<prio>:<cb>:<dur>" nested execute | "s<k>" / "c<k>" status / cancel of an earlier loop-submitted task |
 // "S" / "C" status / cancel of the most recent nested child of this script; "-" = empty; at most 6 actions
-static bool parse_script(const std::string &w, std::vector<TaskRec::Act> &out, size_t ntasks) {
+static bool parse_script(const std::string &w, std::vector<TaskRec::Act> &out, size_t ntasks, bool allowR = false) {
     out.clear();
     if (w == "-") return true;
     std::stringstream ss(w); std::string item;
     while (std::getline(ss, item, ',')) {
         TaskRec::Act a{0, 0, false, 0, 0};
         if (item == "S" || item == "C") { a.kind = item[0]; }
+        else if (allowR && item.size() == 2 && item[0] == 'R' && item[1] >= '1' && item[1] <= '4') { a.kind = 'R'; a.k = (size_t)(item[1] - '0'); }
         else if (item.size() >= 2 && (item[0] == 's' || item[0] == 'c')) {
             uint64_t k; if (!vh::to_u64(item.substr(1), k) || k >= ntasks) { out.clear(); return false; }
             a.kind = item[0]; a.k = k;
@@ -464,6 +521,7 @@ int main() {
 
     int64_t fin_deadline = 0;                     // != 0: `fin` is waiting for callbacks
     bool fin_done = false;
+    bool relife_pending = false; int64_t relife_mn = 0, relife_mx = 0;
     bool at_eof = false; int off_n = 0; unsigned off_dur = 0;
 
     auto print_events = [&] {
@@ -499,7 +557,7 @@ int main() {
         }
         if (g_bulk_n) std::cout << "E bulk " << g_bulk_n << " " << g_bulk_ran.load() << "\n";
         int nw = g_created.load();
-        for (int i = 1; i <= nw && i < kMaxW; ++i)
+        for (int i = g_w_base + 1; i <= nw && i < kMaxW; ++i)
             std::cout << "W " << i << " " << g_w[i].s.load() << " " << g_w[i].e.load() << "\n";
         {
             std::lock_guard<std::mutex> lg(g_nev_mu);
@@ -539,6 +597,27 @@ int main() {
             extra_pass = 0; fin_deadline = 0;
             print_events();
             std::cout << "P fin\n";
+            if (relife_pending) {
+                // ---- second lifecycle on the SAME object: the records of the finished lifecycle were printed above (the
+                // driver validates them as a history of their own); task numbers restart, thread numbers, sequence numbers
+                // and the step log's stamps continue; the finished lifecycle's tokens stay addressable (`ostat` / `ocancel`)
+                relife_pending = false; fin_done = false;
+                g_prev_tok.clear();
+                for (size_t k = 0; k < g_ntasks; ++k) g_prev_tok.push_back(g_tasks[k].token);
+                g_ntasks = 0; g_nn = 0;
+                g_tasks.reset(new TaskRec[kMaxTasks]);
+                { std::lock_guard<std::mutex> lg(g_nev_mu); g_nev.clear(); }
+                g_evn = 0; g_bulk_ran = 0; g_bulk_n = 0; g_cleanup_cs = 0; g_cq1 = 0;
+                g_w_base = g_created.load();
+                g_cleaned = false;
+                uint64_t qb = seq();
+                bool ok = false, threw = false;
+                try { ok = g_tp->initialize((ssize_t)relife_mn, (ssize_t)relife_mx); } catch (const std::exception &) { threw = true; }
+                g_inited = ok;
+                if (!ok) { g_cleaned = true; int64_t dl = now_ms() + 300; while (g_created.load() != g_ended.load() && now_ms() < dl) usleep(200); }
+                if (threw) std::cout << "P init threw " << (g_created.load() - g_ended.load()) << "\n";
+                else std::cout << "P init " << (ok ? 1 : 0) << " " << (g_created.load() - g_ended.load()) << " " << qb << "\n";
+            }
             return true;
         }
         std::string line;
@@ -594,7 +673,7 @@ int main() {
         } else if ((op == "exec" || op == "execs") && (w.size() == 4 || (op == "execs" && w.size() == 6)) && w.size() == (op == "exec" ? 4u : 6u)
                    && vh::to_i64(w[1], pr) && pr >= INT32_MIN && pr <= INT32_MAX && (w[2] == "0" || w[2] == "1")
                    && vh::to_u64(w[3], c) && c <= 20000 && (g_tp || g_wt) && g_ntasks < kNestBase && !fin_done
-                   && (op == "exec" || (parse_script(w[4], g_tasks[g_ntasks].bscript, g_ntasks) && parse_script(w[5], g_tasks[g_ntasks].cscript, g_ntasks)
+                   && (op == "exec" || (parse_script(w[4], g_tasks[g_ntasks].bscript, g_ntasks) && parse_script(w[5], g_tasks[g_ntasks].cscript, g_ntasks, !g_wt_noloop)
                                         && (w[2] == "1" || g_tasks[g_ntasks].cscript.empty())))) {
             size_t k = g_ntasks;
             TaskRec &t = g_tasks[k];
@@ -613,6 +692,8 @@ int main() {
             uint64_t cs = tl_cs;
             uint64_t qa = seq();
             int spawned = tl_made - created0, failed = tl_failed - failed0;
+            // `holdpick` armed: let the worker reach the pause behind its pop before the next op is read (no output depends on it)
+            if (g_hold_us.load() != 0) { int64_t dl = now_ms() + 100; while (g_hold_us.load() != 0 && now_ms() < dl) usleep(50); }
             if (threw) { t.bscript.clear(); t.cscript.clear(); std::cout << "P exec threw " << qb << " " << qa << " " << cs << "\n"; }
             else if (tok.isNull()) { t.bscript.clear(); t.cscript.clear(); std::cout << "P exec null " << qb << " " << qa << " " << cs << "\n"; }
             else { t.token = tok; ++g_ntasks; std::cout << "P exec " << k << " " << qb << " " << qa << " " << cs << "\n"; }
@@ -698,6 +779,61 @@ int main() {
             int live = g_created.load() - g_ended.load();
             g_cleaned = true;
             std::cout << "P destroy ok " << qb << " " << qa << " " << live << " " << g_cq1.load() << " " << g_cleanup_cs << "\n";
+        } else if (op == "relife" && w.size() == 3 && vh::to_i64(w[1], smn) && vh::to_i64(w[2], smx) && !(smn > 64 && smn <= smx)
+                   && g_tp && g_cleaned && !g_destroyed && !fin_done && g_fail_create.load() == 0 && g_bulk_n == 0) {
+            // initialize() again after cleanup() has returned: flush this lifecycle's records first (like `fin`)
+            relife_pending = true; relife_mn = smn; relife_mx = smx;
+            fin_done = true;
+            wait_scripts_done();
+            fin_deadline = now_ms() + 2000;
+        } else if ((op == "ostat" || op == "ocancel") && w.size() == 2 && vh::to_u64(w[1], a) && a < g_prev_tok.size() && g_tp && !g_destroyed) {
+            // a token of the PREVIOUS lifecycle of this object: stale
+            uint64_t qb = seq(); int r; uint64_t cs;
+            { ApiScope as; r = (op == "ostat") ? (int)g_tp->getTaskStatus(g_prev_tok[a]) : g_tp->cancel(g_prev_tok[a]); cs = tl_cs; }
+            uint64_t qa = seq();
+            if (op == "ostat") std::cout << "P ostat " << a << " " << "wen"[r] << " " << qb << " " << qa << " " << cs << "\n";
+            else std::cout << "P ocancel " << a << " " << r << " " << qb << " " << qa << " " << cs << "\n";
+        } else if (op == "holdpick" && w.size() == 2 && vh::to_u64(w[1], a) && a >= 1 && a <= 20000 && (g_tp || g_wt)) {
+            g_hold_us = (unsigned)a;
+            std::cout << "P holdpick\n";
+        } else if (op == "forge" && w.size() == 3 && vh::to_u64(w[2], a) && (g_tp || (g_wt && !g_cleaned)) && g_bulk_n == 0
+                   && (w[1] == "pos" || w[1] == "posbig" || w[1] == "idbig" || w[1] == "idmax" || w[1] == "null" || w[1] == "wt" || w[1] == "pool")
+                   && ((w[1] == "wt" || w[1] == "pool") ? a == 0 : a < g_ntasks)) {
+            // well-formed tokens this object never issued.  Derived from the token of task a: the same id at another position,
+            // an id far beyond every id issued at the same position, a null id at a live position; or taken from ANOTHER
+            // pool / WorkThread that has issued more tokens than this object (so the id is unknown here while the position
+            // is one this object uses too).  Every one must answer not-found / 1 and change nothing.
+            cabinet::Token tok;
+            if (w[1] == "wt" || w[1] == "pool") {
+                tl_foreign = 1;
+                uint64_t n = g_exec_calls.load() + 8;
+                std::atomic<uint64_t> ran{0};
+                if (w[1] == "wt") {
+                    WorkThread other(g_loop);
+                    for (uint64_t i = 0; i < n; ++i) tok = other.execute([&ran] { ran.fetch_add(1); });
+                } else {
+                    ThreadPool other(g_loop);
+                    other.initialize(1, 2);
+                    for (uint64_t i = 0; i < n; ++i) tok = other.execute([&ran] { ran.fetch_add(1); }, 0);
+                    other.cleanup();
+                }
+                tl_foreign = 0;
+            } else {
+                const cabinet::Token &t0 = g_tasks[a].token;
+                if (w[1] == "pos") tok = cabinet::Token(t0.id(), t0.pos() + 1);
+                else if (w[1] == "posbig") tok = cabinet::Token(t0.id(), t0.pos() + ((size_t)1 << 32));
+                else if (w[1] == "idbig") tok = cabinet::Token(t0.id() + 1000000, t0.pos());
+                else if (w[1] == "idmax") tok = cabinet::Token(~(size_t)0, t0.pos());
+                else tok = cabinet::Token(0, t0.pos());
+            }
+            uint64_t qb = seq(); int st = 2, r = 1; uint64_t cs1 = 0, cs2 = 0; bool threw = false;
+            try {
+                { ApiScope as; st = g_tp ? (int)g_tp->getTaskStatus(tok) : (int)g_wt->getTaskStatus(tok); cs1 = tl_cs; }
+                { ApiScope as; r = g_tp ? g_tp->cancel(tok) : g_wt->cancel(tok); cs2 = tl_cs; }
+            } catch (const std::exception &) { threw = true; tl_api = 0; }
+            uint64_t qa = seq();
+            if (threw) std::cout << "P forge threw " << qb << " " << qa << "\n";
+            else std::cout << "P forge " << "wen"[st] << " " << r << " " << qb << " " << qa << " " << cs1 << " " << cs2 << "\n";
         } else if (op == "fin" && w.size() == 1 && !fin_done) {
             fin_done = true;
             wait_scripts_done();                   // bodies that call the API finish first (their records are printed below)
